@@ -91,4 +91,41 @@ static int vh_flag(int argc, char **argv, const char *name) {
 
 #define VH_DIE(...) do { fprintf(stderr, "HARNESS: " __VA_ARGS__); fputc('\n', stderr); exit(2); } while (0)
 
+
+/* Private loopback: move this process (and its future children/threads) into a network namespace of its own and bring `lo` up, so
+ * that no other process of the machine (parallel drivers, the repository's own socket tests, ...) can bind, listen on or connect to
+ * the ports a socket workload uses.  Returns 1 if isolated, 0 if the kernel/privileges do not allow it (the workload then runs on the
+ * shared loopback as before).  Call before any thread or socket is created. */
+#ifdef __linux__
+#include <sched.h>
+#include <sys/ioctl.h>
+#include <sys/socket.h>
+#include <net/if.h>
+#include <fcntl.h>
+extern int unshare(int);
+#ifndef CLONE_NEWNET
+#define CLONE_NEWNET 0x40000000
+#endif
+extern int setns(int, int);
+static int vh_private_net(void) {
+	int fd, ok = 0, oldns; struct ifreq ifr;
+	if (getenv("VH_SHARED_NET")) return 0;
+	oldns = open("/proc/self/ns/net", 0 /* O_RDONLY */);
+	if (unshare(CLONE_NEWNET) != 0) { if (oldns >= 0) close(oldns); return 0; }
+	fd = socket(AF_INET, SOCK_DGRAM, 0);
+	if (fd >= 0) {
+		memset(&ifr, 0, sizeof ifr); strcpy(ifr.ifr_name, "lo");
+		if (ioctl(fd, SIOCGIFFLAGS, &ifr) == 0) { ifr.ifr_flags |= IFF_UP | IFF_RUNNING; ok = ioctl(fd, SIOCSIFFLAGS, &ifr) == 0; }
+		close(fd);
+	}
+	if (!ok) {       /* no usable loopback in the new namespace: go back to the shared one */
+		if (oldns < 0 || setns(oldns, CLONE_NEWNET) != 0) { fprintf(stderr, "vh_private_net: new network namespace without loopback and no way back\n"); exit(3); }
+	}
+	if (oldns >= 0) close(oldns);
+	return ok;
+}
+#else
+static int vh_private_net(void) { return 0; }
+#endif
+
 #endif
